@@ -156,6 +156,10 @@ IO_WRAPS = ["(%s, i%(i)d = 1, 2)", "(%s, b(i%(i)d), i%(i)d = 1, 2)", "(b(i%(i)d)
             "(%s, i%(i)d = 1, 6, 2)", "(c, %s, d(i%(i)d), i%(i)d = 1, n)", "(%s, b(i%(i)d), i%(i)d = 1, 4, 2)"]
 IO_STMTS = ["write(6, *) %s", "print *, %s", "read(5, *) %s", "write(unit = 6, fmt = '(i2)') x, %s, y", "print '(i2)', %s"]
 
+# wrappers that put the operand inside a user (non-intrinsic) reference; each alone is linear on the pinned tree, but a
+# part-ref with a component (c(..)%d) around another user reference is parsed twice per level (Data_Ref, then Part_Ref)
+USER_REF_WRAPS = {"c(%s)%%d", "a%%b(%s)", "obj%%get(key = %s)", "f(k = %s)", "t(1, c = %s)", "s(1)(%s:2)"}
+
 SIB_KINDS = {
     "nonblock_do": ["do %(l)d i = 1, 2", "%(l)d x%(i)d = i"],
     "label_do": ["do %(l)d i = 1, 2", "x = i", "%(l)d continue"],
@@ -309,8 +313,15 @@ def _evaluate(case):
         return Result(False, "family-rejected:%s" % name, nontrivial, labels, {"status": [s1, s2], "source": family_source(case, n)})
     if s1.startswith("error") or s2.startswith("error"):
         return Result(False, "family-raises:%s" % name, nontrivial, labels, {"status": [s1, s2]})
-    if s2 in ("capped", "recursion") or c2 > (2 ** K) * c1 + C0:
-        return Result(False, "superpolynomial:%s" % name, nontrivial, labels,
+    if "recursion" in (s1, s2):
+        # Python's stack limit, not the amount of work, ended the parse (the recorded C06 finding about deep nesting):
+        # the pair of sizes says nothing about growth - counted as inconclusive, not as a violation
+        return Result(True, None, False, labels + ["inconclusive:python-stack-limit"])
+    if s2 == "capped" or c2 > (2 ** K) * c1 + C0:
+        tag = ""
+        if fam == "generated_expr" and sum(1 for w in set(case["recipe"]) if w in USER_REF_WRAPS) >= 2:
+            tag = "+mixed-user-reference-nest"      # compositions of two reference-shaped wrappers: the recorded finding
+        return Result(False, "superpolynomial:%s%s" % (name, tag), nontrivial, labels,
                       {"n": n, "c(n)": c1, "c(2n)": c2, "ratio": round(c2 / max(c1, 1), 2), "capped": s2 == "capped",
                        "source_n": family_source(case, n)[:800]})
     return Result(True, None, nontrivial, labels)
